@@ -145,7 +145,11 @@ Proof. split; reflexivity. Qed.
    steps are those of the ONE sequence of all points of the glyph (glyf_points is the
    concatenation of the contours, decode_simple one running sum over it): the step from
    the last point of a contour to the first point of the next — which glyf stores as a
-   delta like any other — is covered, see glyf_seam_step_checked below. *)
+   delta like any other — is covered, see glyf_seam_step_checked below.  A contour lists
+   ALL its points: the on-curve points and the off-curve control points of its quadratic
+   segments (after cu2qu) alike; the coordinate check ranges over every one of them, see
+   glyf_every_point_checked below — a control point outside i16 ends the build even when
+   the curve it controls, and so the tight bounding box of the outline, stays inside. *)
 Theorem glyf_outline_never_wrapped : forall (p : profile) (cs : list contour) (o : glyf_out),
   simple_glyph p cs = Emit o -> outline_faithful cs o.
 Proof. exact simple_glyph_emit_faithful. Qed.
@@ -167,6 +171,28 @@ Proof.
   - intro K. now apply simple_glyph_fit_emitted.
 Qed.
 Print Assumptions glyf_outline_emitted_iff.
+
+(* Every point of every contour of an emitted outline — on-curve or off-curve (second
+   statement: points that carry their kind; the kind is irrelevant) — rounds into i16, in
+   x and in y. *)
+Theorem glyf_every_point_checked :
+  (forall p (cs : list contour) o, simple_glyph p cs = Emit o ->
+     forall c q, In c cs -> In q c -> pt_fitsb q = true) /\
+  (forall p (fcs : list (list (pt * bool))) o, simple_glyph p (map (map fst) fcs) = Emit o ->
+     forall fc q (on_curve : bool), In fc fcs -> In (q, on_curve) fc -> pt_fitsb q = true).
+Proof. split; [exact emit_points_fit|exact emit_flagged_points_fit]. Qed.
+Print Assumptions glyf_every_point_checked.
+
+Example glyf_control_point_checked :
+  (* (-100,500) (0,0) then the quadratic (0,0) -> control (40000,500) -> (0,1000): the curve
+     reaches x = 20000 only, the box of the curve fits i16, the control point does not *)
+  let far := [[(-100, 500); (0, 0); (40000, 500); (0, 1000)]]%Q in
+  let near := [[(-100, 500); (0, 0); (32767, 500); (0, 1000)]]%Q in
+  simple_glyph Debug far = Reject /\ simple_glyph Release far = Reject /\
+  omap dump_glyf (simple_glyph Release near) =
+    Emit [0; 1; 3; 4; -100; 500; 0; 1000; 32767; 500; 0; 0; -100; 0; 32767; 1000] /\
+  masters_coords_fitb [near; far] = false.
+Proof. cbv zeta. repeat split; vm_compute; reflexivity. Qed.
 
 (* Contour seams: in an emitted outline the step from the last emitted point of any contour
    to the first emitted point of the contour that follows fits i16 in x and in y (so the
@@ -331,7 +357,9 @@ Proof. exact build_profile_indep. Qed.
 Print Assumptions font_profiles_agree_bounded.
 
 (* Checked sites: a font is emitted only if every advance width fits u16, every outline
-   (source or decomposed) passes the glyf checks, every kept component offset fits i16,
+   (source or decomposed) passes the glyf checks (outline_checksb: EVERY point of every
+   contour, on- or off-curve, fits i16; every step of the one point sequence of the
+   glyph, contour seams included, fits i16; at most 65535 points), every kept component offset fits i16,
    there are at most 65535 glyphs and every top side bearing fits i16.  So a source with
    a value of one of these kinds that does not fit is never turned into a font, by either
    profile. *)
